@@ -519,9 +519,10 @@ func (w *world) colddump() {
 		}
 		var items []string
 		for _, d := range ds {
-			if d.Err != "" {
-				items = append(items, d.Name+":?")
+			if d.Err == "open" {
+				items = append(items, d.Name+":?") // no store info in the folder this process reads
 			} else {
+				// a store whose info is there but whose nodes cannot be read still shows its count; the oracle below flags it
 				items = append(items, fmt.Sprintf("%s:%d", d.Name, d.Count))
 			}
 		}
